@@ -85,20 +85,34 @@ def run_case(case):
                 # compositions with large coefficients whose rounding the safe mode pays at every step). An operator applied
                 # twice or skipped is an error of order (mass ratio) dt^2 ~ 1e-7 or more.
                 K = 1e5 if corrected else 2048
-                if d > K * EPS * (n + 2) * sc:
+                # the correctors' rounding does not grow with n in unsafe mode (applied once at each end) but is not small: n + 20
+                if d > K * EPS * (n + (20 if corrected else 2)) * sc:
                     add('sync:safe-vs-unsafe-differ:%s%s' % (integ, ':then-short-exact-integrate' if short else ''), '%s opts %r n=%d: max|diff|=%.3e (scale %.3e, %.1f eps n scale)' % (integ, spec['opts'], n, d, sc, d / (EPS * n * sc)))
             else:
                 counters['eos_pairs'] += 1
-                # The merged drift of unsafe mode runs the inner scheme phi1 with n substeps over dt instead of over each half:
-                # unsafe mode is the same scheme with an inner step up to twice as long, so its error against the true
-                # trajectory may be up to 2^p1 times that of safe mode (p1 = order of phi1), not more.
+                # The merged drift of unsafe mode runs the inner scheme phi1 with its n substeps over the merged interval: unsafe
+                # mode with 2n substeps has the inner step of safe mode with n substeps in the merged drifts and that of safe
+                # mode with 2n substeps elsewhere, so its error against the true trajectory lies between the two (this is
+                # "the scheme's own truncation error"; measured: equal to a few percent except where the merged drift dominates).
+                n_in = int(spec['opts'].get('ri_eos.n', 2))
+                spec2n = json.loads(json.dumps(spec))
+                spec2n['opts']['ri_eos.n'] = 2 * n_in
+                specU = json.loads(json.dumps(spec2n))
+                specU['opts'].update(unsafe_opts(integ))
+                sA2, sU = gen.build_sim(spec2n), gen.build_sim(specU)
+                sA2.steps(n)
+                sU.steps(n)
+                if short:
+                    sA2.integrate(tgt, exact_finish_time=1)
+                    sU.integrate(tgt, exact_finish_time=1)
+                else:
+                    sU.synchronize()
                 sR = gen.build_sim(dict(spec, integrator='ias15', opts={'ri_ias15.epsilon': 1e-9}))
                 sR.integrate(sA.t, exact_finish_time=1)
                 ref = state(sR)
-                err_safe, err_unsafe = maxdiff(a, ref), maxdiff(b, ref)
-                p1 = {'lf': 2, 'lf4': 4, 'lf6': 6, 'lf8': 8, 'lf4_2': 4, 'lf8_6_4': 8, 'plf7_6_4': 7, 'pmlf4': 4, 'pmlf6': 6}[str(spec['opts'].get('ri_eos.phi1', 'lf')).lower()]
-                if err_unsafe > 4 * (1 + 2 ** p1) * err_safe + 1e4 * EPS * (n + 2) * sc:
-                    add('sync:unsafe-error-exceeds-scheme-truncation:eos', 'opts %r n=%d: |unsafe-ref|=%.3e but |safe-ref|=%.3e (phi1 order %d)' % (spec['opts'], n, err_unsafe, err_safe, p1))
+                err_safe, err_safe2, err_unsafe = maxdiff(a, ref), maxdiff(state(sA2), ref), maxdiff(state(sU), ref)
+                if err_unsafe > 4 * max(err_safe, err_safe2) + 1e4 * EPS * (n + 2) * sc:
+                    add('sync:unsafe-error-exceeds-scheme-truncation:eos', 'opts %r n=%d: |unsafe(2n)-ref|=%.3e but |safe(n)-ref|=%.3e |safe(2n)-ref|=%.3e' % (spec['opts'], n, err_unsafe, err_safe, err_safe2))
                 # exact relation: unsafe mode synchronised after every step performs the same operations as safe mode
                 sC = gen.build_sim(specB)
                 for _i in range(min(n, 40)):
